@@ -3,6 +3,7 @@ package compiler
 import (
 	"encoding/json"
 	"fmt"
+	"unicode/utf8"
 
 	"github.com/risor-io/risor/op"
 )
@@ -55,6 +56,14 @@ type floatConstantDef struct {
 type stringConstantDef struct {
 	Type  string `json:"type"`
 	Value string `json:"value"`
+}
+
+// rawStringConstantDef carries a string constant that is not valid UTF-8 (one
+// built from octal escapes, for example). A JSON string would replace its
+// invalid bytes with U+FFFD.
+type rawStringConstantDef struct {
+	Type  string `json:"type"`
+	Value []byte `json:"value"`
 }
 
 type functionConstantDef struct {
@@ -196,6 +205,12 @@ func unmarshalConstant(constant json.RawMessage) (any, error) {
 			return nil, err
 		}
 		return def.Value, nil
+	case "raw_string":
+		var def rawStringConstantDef
+		if err := json.Unmarshal(constant, &def); err != nil {
+			return nil, err
+		}
+		return string(def.Value), nil
 	case "function":
 		var def functionConstantDef
 		if err := json.Unmarshal(constant, &def); err != nil {
@@ -247,6 +262,9 @@ func marshalConstant(c any) (json.RawMessage, error) {
 	case float64:
 		return json.Marshal(floatConstantDef{Type: "float", Value: c})
 	case string:
+		if !utf8.ValidString(c) {
+			return json.Marshal(rawStringConstantDef{Type: "raw_string", Value: []byte(c)})
+		}
 		return json.Marshal(stringConstantDef{Type: "string", Value: c})
 	case *Function:
 		fn, err := definitionFromFunction(c)
